@@ -54,13 +54,16 @@ def build_expiry(fns):
     sc.query("witness: some shard is kept", ["(or %s)" % " ".join(mk_and(p.pc) for p in kept if p.end == "return")], expect="sat", kind="witness")
     # load decision
     f2, s2, paths2 = _run(fns, r"load_all::\{closure#0\}$", "l.")
-    sc.declare(s2.decls)
     pushed = [p for p in paths2 if any(re.search(r"Vec::<.*>::push$", e[0]) for e in p.events)]
     skipped = [p for p in paths2 if p not in pushed and p.end == "return"]
     if not pushed or not skipped:
         raise RuntimeError("load closure shape not recognised")
     place = _footer_u64_read(f2)
-    p0 = pushed[0]
+    base_local = re.search(r"\(\*(_\d+)\)", place).group(1)
+    readers = [p for p in paths2 if base_local in p.store or base_local in p.alias]
+    if not readers:
+        raise LookupError("no path of the load closure reads the expiry")
+    p0 = readers[0]
     l_exp = s2.load(p0, s2.resolve(p0, symex.parse_place(place)), "u64").t
     l_now = s2.debug_val(p0, "current_time").t
     l_all = s2.debug_val(p0, "load_expired").t
@@ -70,6 +73,7 @@ def build_expiry(fns):
         sc.query("a shard not past its expiry is loaded [path %d]" % i, p.pc + ["(bvule %s %s)" % (l_now, l_exp)])
     sc.query("witness: some shard is loaded with load_expired = false", ["(or %s)" % " ".join(mk_and(p.pc) for p in pushed), mk_not(l_all)], expect="sat", kind="witness")
     sc.query("witness: some shard is skipped", ["(or %s)" % " ".join(mk_and(p.pc) for p in skipped)], expect="sat", kind="witness")
+    sc.declare(s2.decls)
     # never both, for the same shard and instant, with a non-zero grace
     link = [mk_eq(d_exp, l_exp), mk_eq(d_now, l_now), mk_not(l_all), "(bvugt %s %s)" % (d_grace, bvconst(0, 64)), "(bvult %s %s)" % (d_now, bvconst(2**64 - 1, 64))]
     for i, pd in enumerate(removed):
